@@ -1066,6 +1066,58 @@ pub fn run(cfg: &Cfg) -> i32 {
     let n = sweep(cfg, "F6-comments", &nop, &ca, l6, &all, &rep, &tot);
     add("F6-comments", "\\ ( ) space newline a".into(), l6, n, t0);
 
+    // F3b long real spellings: 15 / 16 / 17 significant digits (around the point where a mantissa no longer
+    // fits the 53 bits of a double), an arithmetic progression of mantissas x decimal-point positions; the
+    // reference is the standard decimal-to-double conversion
+    {
+        let t0 = std::time::Instant::now();
+        let count: u64 = if quick { 40_000 } else { 400_000 };
+        let (lo16, hi16) = (9_007_199_254_740_993u64, 9_999_999_999_999_999u64);
+        let step = (hi16 - lo16) / count;
+        let mut items: Vec<String> = Vec::with_capacity(count as usize * 6);
+        for i in 0..count {
+            let m = lo16 + i * step + (i % 7);
+            let d16 = m.to_string();
+            let d15 = &d16[..15];
+            let d17 = format!("{}{}", d16, (i % 9) + 1);
+            for digits in [d15, d16.as_str(), d17.as_str()] {
+                for dot in [1usize, 8] {
+                    items.push(format!("{}.{}", &digits[..dot], &digits[dot..]));
+                }
+            }
+            if i % 16 == 0 {
+                items.push(format!("-{}.{}", &d16[..1], &d16[1..]));
+                items.push(format!("0.{}", d16));
+                items.push(format!("{}.0", d16));
+            }
+        }
+        list_family(cfg, "F3b-long-reals", &items, &rep, &tot);
+        add("F3b-long-reals", "15/16/17-digit mantissas from 9007199254740993 upwards in equal steps x decimal point after digit 1 / 8 (+ sign, 0. and .0 forms)".into(), 18, items.len() as u64, t0);
+    }
+
+    // F8 neighbouring tokens: every ordered pair (and triple) of a token list separated by white space; what a
+    // token leaves in the lexer's scratch space must not reach the next one
+    {
+        let t0 = std::time::Instant::now();
+        let toks: Vec<&str> = vec![
+            "12", "-7", "0x1f", "0b101", "1.5", "-2.5e3", "\"ab\"", "\"a\\tb\"", "\"x\\n\"", "\"y\\\\z\"", "\"\"", "\"é\"", "|ff|", "|x.x 9|", "||", "word", "+", "\\( c \\)",
+            "\\ line\n", "12x", "[", "0x", "\"q\\\"r\"",
+        ];
+        let mut items: Vec<String> = vec![];
+        for a in &toks {
+            for b in &toks {
+                for sep in [" ", "\n", "\t "] {
+                    items.push(format!("{}{}{}", a, sep, b));
+                }
+                for c in &toks {
+                    items.push(format!("{} {} {}", a, b, c));
+                }
+            }
+        }
+        list_family(cfg, "F8-neighbouring-tokens", &items, &rep, &tot);
+        add("F8-neighbouring-tokens", format!("all ordered pairs (3 separators) and triples of {} tokens: numbers, strings with and without escapes, bit-strings, words, comments, malformed tokens", toks.len()), 3, items.len() as u64, t0);
+    }
+
     // F7 print -> read
     let samples: Mutex<Vec<J>> = Mutex::new(vec![]);
     let t0 = std::time::Instant::now();
